@@ -36,6 +36,12 @@ def topicEntry {α : Type} (fmtN : List Char) (partEntry : Int × α → R Bytes
       | .error e => .error e
       | .ok ps => .ok (t ++ n ++ ps)
 
+/-- `sum(len(by_partition) for by_partition in grouped.values())` of `_group_payloads`: a grouped
+    structure that holds fewer payloads than were given lost one to a repeated (topic, partition),
+    and the encoder refuses the list (`ValueError`) -/
+def payloadCount {α : Type} (grouped : List (Option Bytes × List (Int × α))) : Nat :=
+  (grouped.map (fun tp => tp.2.length)).sum
+
 /-! ## payload structs (`afkak/common.py`); a topic / group / member id is a Python `str` given by
 its UTF-8 bytes, or `None` -/
 
@@ -92,6 +98,7 @@ def producePartEntry (ext : Ext) (magic : Int) (pp : Int × ProduceReq) : R Byte
 def encodeProduceRequest (ext : Ext) (clientId : Bytes) (corr : Int) (payloads : List ProduceReq)
     (acks timeout apiVersion : Int) : R Bytes :=
   let grouped := groupByTopicPartition ProduceReq.topic ProduceReq.partition payloads
+  if payloadCount grouped ≠ payloads.length then .error .valueError else
   let (reqVer, magic) := produceClamp apiVersion
   match encodeHeader clientId corr hdrKey_encode_produce_request reqVer with
   | .error e => .error e
@@ -110,6 +117,7 @@ def fetchPartEntry (pp : Int × FetchReq) : R Bytes :=
 def encodeFetchRequest (clientId : Bytes) (corr : Int) (payloads : List FetchReq)
     (maxWaitTime minBytes apiVersion : Int) : R Bytes :=
   let grouped := groupByTopicPartition FetchReq.topic FetchReq.partition payloads
+  if payloadCount grouped ≠ payloads.length then .error .valueError else
   match encodeHeader clientId corr hdrKey_encode_fetch_request (fetchClamp apiVersion) with
   | .error e => .error e
   | .ok hdr =>
@@ -127,6 +135,7 @@ def offsetPartEntry (pp : Int × OffsetReq) : R Bytes :=
 /-- `KafkaCodec.encode_offset_request(client_id, correlation_id, payloads)` (ListOffsets v0) -/
 def encodeOffsetRequest (clientId : Bytes) (corr : Int) (payloads : List OffsetReq) : R Bytes :=
   let grouped := groupByTopicPartition OffsetReq.topic OffsetReq.partition payloads
+  if payloadCount grouped ≠ payloads.length then .error .valueError else
   match encodeHeader clientId corr hdrKey_encode_offset_request hdrVer_encode_offset_request with
   | .error e => .error e
   | .ok hdr =>
@@ -169,6 +178,7 @@ def encodeOffsetCommitRequest (clientId : Bytes) (corr : Int) (group : Option By
     (consumerId : Option Bytes) (payloads : List OffsetCommitReq) : R Bytes :=
   if consumerId.isNone then .error .assertion else
   let grouped := groupByTopicPartition OffsetCommitReq.topic OffsetCommitReq.partition payloads
+  if payloadCount grouped ≠ payloads.length then .error .valueError else
   match encodeHeader clientId corr hdrKey_encode_offset_commit_request hdrVer_encode_offset_commit_request with
   | .error e => .error e
   | .ok hdr => match writeShortAscii group with
@@ -192,6 +202,7 @@ def offsetFetchPartEntry (pp : Int × OffsetFetchReq) : R Bytes :=
 def encodeOffsetFetchRequest (clientId : Bytes) (corr : Int) (group : Option Bytes)
     (payloads : List OffsetFetchReq) : R Bytes :=
   let grouped := groupByTopicPartition OffsetFetchReq.topic OffsetFetchReq.partition payloads
+  if payloadCount grouped ≠ payloads.length then .error .valueError else
   match encodeHeader clientId corr hdrKey_encode_offset_fetch_request hdrVer_encode_offset_fetch_request with
   | .error e => .error e
   | .ok hdr => match writeShortAscii group with
